@@ -84,7 +84,7 @@ theorem C16_child_of_noop (s : Sys) (t : Nat) (v n p : String) (h : assocGet s.s
 theorem C16_root_before_reporter (s : Sys) (t : Nat) (v n : String) (tr sp : Nat) (b : Bool)
     (h : s.reporterReady = false) :
     exec s t (.root v n tr sp b) = ({ s with spans := assocSet s.spans v none }, .ok) := by
-  simp [exec, h]
+  simp [exec, Sys.rootOp, h]
 
 /-- setting a no-op span as local parent opens no scope and sends nothing -/
 theorem C16_scope_noop (s : Sys) (t : Nat) (v : String) (h : assocGet s.spans v = some none) :
@@ -126,7 +126,7 @@ theorem C16_disabled (op : Op) :
 
 /-! non-vacuity: a state with a no-op span (root before the reporter is installed) -/
 example : assocGet (exec Sys.init 0 (.root "v" "n" 1 0 true)).1.spans "v" = some none := by
-  simp [exec, Sys.init, assocGet, assocSet]
+  simp [exec, Sys.rootOp, Sys.init, assocGet, assocSet]
 
 /-! ### whole programs: nothing records before a reporter is installed -/
 
